@@ -191,5 +191,10 @@ def fresh_state(model, dataset=None, *, latent="mode", fork=None):
     if dataset is not None:
         model.put_data_variables(st, dataset)
         if latent is not None:
-            st.put_individual_latent_variables(latent, n_individuals=dataset.n_individuals)
+            if type(model).__name__ == "LogisticMultivariateMixtureModel":
+                # prior-mode initialisation has no meaning per cluster: use the model's own (deterministic) start values
+                model.put_individual_parameters(st, dataset)
+                st.auto_fork_type = fork
+            else:
+                st.put_individual_latent_variables(latent, n_individuals=dataset.n_individuals)
     return st
